@@ -21,7 +21,7 @@ VARIABLES
     ivl,      \* id -> <<lo, hi>> word interval of every object whose placement is known
               \*       (reachable at the last GC, or allocated since)
     imm,      \* id -> [a, h] objects of never-collected spaces (re-read at every GC)
-    pinned,   \* set of ids pinned through pin_object / pinning roots
+    pinned,   \* set of ids pinned through pin_object
     bound,    \* set of bound mutators
     failed,   \* a guard failed in the current program: skip to the next Reset
     aux,      \* [exh: the next GCEnd answers an exhaustive user request; grid: inside the C03 argument
@@ -60,7 +60,7 @@ RECURSIVE Closure(_, _)
 Closure(S, F) ==
     LET N == S \cup UNION { { F[o].f[k] : k \in DOMAIN F[o].f } \ {Null} : o \in S }
     IN  IF N = S THEN S ELSE Closure(N, F)
-Reach == Closure({ roots[s] : s \in DOMAIN roots } \cup pinned, objs)
+Reach == Closure({ roots[s] : s \in DOMAIN roots }, objs)
 
 Bump(key) == [stats EXCEPT ![key] = @ + 1]
 
@@ -146,7 +146,9 @@ DoDestroy(e) ==
     /\ roots' = [s \in {s \in DOMAIN roots : s \div 100 # e.m} |-> roots[s]]
     /\ UNCHANGED <<cfg, objs, ivl, imm, pinned, failed, aux, stats>>
 
-DoPin(e) == pinned' = IF e.ok THEN pinned \cup {e.id} ELSE pinned
+\* pin_object pins (it answers FALSE for an object that was pinned already or never moves) and does
+\* not keep the object alive
+DoPin(e) == pinned' = pinned \cup {e.id}
             /\ UNCHANGED <<cfg, objs, roots, ivl, imm, bound, failed, aux, stats>>
 DoUnpin(e) == pinned' = pinned \ {e.id}
               /\ UNCHANGED <<cfg, objs, roots, ivl, imm, bound, failed, aux, stats>>
